@@ -398,7 +398,15 @@ def rule_r3(ctx):
 def _validates_before_store(fn, val):
     """In the list-typed branch: `if value not in <list>: raise` must dominate every store."""
     def stores_in(stmts):
-        return [s for s in stmts if isinstance(s, (ast.Assign, ast.AugAssign)) or (isinstance(s, ast.Expr) and isinstance(s.value, ast.Call) and _callee_name(s.value) in ("__setitem__", "setattr", "update"))]
+        out = []
+        for s in stmts:
+            if isinstance(s, ast.Assign) and any(isinstance(t, (ast.Attribute, ast.Subscript)) for t in s.targets):
+                out.append(s)
+            elif isinstance(s, ast.AugAssign) and isinstance(s.target, (ast.Attribute, ast.Subscript)):
+                out.append(s)
+            elif isinstance(s, ast.Expr) and isinstance(s.value, ast.Call) and _callee_name(s.value) in ("__setitem__", "setattr", "update"):
+                out.append(s)
+        return out
 
     list_branch = None
     for n in fn.body:
